@@ -159,10 +159,14 @@ class PDUData(object):
         self.pduData += data
 
     def put_short(self, n):
-        self.pduData += struct.pack('>H',n & _short_mask)
+        if (n < 0) or (n > _short_mask):
+            raise ValueError("short out of range")
+        self.pduData += struct.pack('>H', n)
 
     def put_long(self, n):
-        self.pduData += struct.pack('>L',n & _long_mask)
+        if (n < 0) or (n > _long_mask):
+            raise ValueError("long out of range")
+        self.pduData += struct.pack('>L', n)
 
     def debug_contents(self, indent=1, file=sys.stdout, _ids=None):
         if isinstance(self.pduData, bytearray):
